@@ -491,6 +491,7 @@ func c15JudgeStr(c *mon.Ctx, in *c15Str) {
 		c.Count("neg:identity-accepted-by-all")
 	case refOK && s != in.Origin:
 		c.Count("neg:mutation-is-itself-valid")
+		c.Info("mutation_that_is_itself_a_valid_address", map[string]any{"string": s, "origin": in.Origin, "class": in.Class, "hash": hex.EncodeToString(refHash)})
 	}
 	if in.Class != "substitute" && in.Class != "insert" {
 		c.Sample("string:"+in.Class, 1, func() any {
